@@ -127,6 +127,18 @@ class ExternalOptimizer(Optimizer):
                 with contextlib.suppress(subprocess.TimeoutExpired):
                     process.wait(_PROCESS_TIMEOUT)
 
+                # The process has ended by itself. Any exception that could not
+                # be reported to it must still be raised, and an abnormal exit
+                # must not be mistaken for a normal completion:
+                if exception is not None:
+                    raise exception
+                if process.returncode != 0:
+                    msg = (
+                        "External optimizer process failed with "
+                        f"exit status {process.returncode}"
+                    )
+                    raise RuntimeError(msg)
+
     @property
     def allow_nan(self) -> bool:
         """Whether NaN is allowed.
